@@ -18,6 +18,7 @@ from codemodder.dependency_management import DependencyManager
 from codemodder.project_analysis.file_parsers.package_store import FileType, PackageStore
 from crosshair.core import deep_realize
 from crosshair.tracers import NoTracing
+from harness import c09
 from harness.c04 import _CP
 from vlib.core import NoLog, fin, tier
 from vlib.main import Xh
@@ -261,6 +262,14 @@ def second_run_setup_cfg(deps: List[int], inline: bool, final_newline: bool) -> 
     return fin(ok and cs2 is None and after2 == after1)
 
 
+def two_codemods_one_manifest(same_dep: bool, declared: bool, swap: bool) -> bool:
+    """Two codemods of one run needing a package (the same or different ones) share the run's parsed manifest: each
+    needed package ends up listed exactly once, as after one-at-a-time runs (obligation shared with C09).
+    post: _
+    """
+    return fin(c09._shared_manifest(same_dep, declared, swap))
+
+
 class _RM:
     def __init__(self, stores):
         self.package_stores = stores
@@ -395,6 +404,7 @@ SPEC = {
         Xh("setup_cfg", 400, 1500),
         Xh("already_declared_not_written", 150, 300),
         Xh("second_run_setup_cfg", 200, 400),
+        Xh("two_codemods_one_manifest", 200, 400),
         Xh("notice", 150, 300),
         Xh("planted_duplicate_append", 60, 120, twin=False, expect="refuted"),
     ],
